@@ -3,53 +3,88 @@ import Sigc.VisitLemmas
   C09 — auto-disconnection reaches through every adaptor and nesting.
 
   All statements quantify over *every* functor expression `e : FExpr` (any nesting depth, any number of
-  bound values at any position, any assignment of trackables to leaves, slots stored inside the
-  expression) and are proved by structural induction about the visitor table `codeTable` exactly as it
-  is written in `Sigc/Visit.lean` (one row per `sigc::visitor<>` specialisation).
+  bound values at any position — plain values, `std::ref`/`std::cref`, by-value objects and *functor
+  expressions bound by value* (`bind(&run_then, continuation_slot)`, `bind(&apply, mem_fun(obj, …))`,
+  `bind_return(f, some_slot)`), any assignment of trackables to leaves, slots stored inside the
+  expression) and are proved by structural induction (mutual: expression ↔ bound argument ↔ bound tuple)
+  about the visitor table `codeTable` exactly as it is written in `Sigc/Visit.lean` (one row per
+  `sigc::visitor<>` specialisation).
 -/
 namespace Sigc.C09
 open Sigc.Visit
 
+mutual
 /-- the rep tree of a slot made from `e` registers itself (own rep + the inner reps it owns) in exactly
     the trackables `e` refers to by reference, with multiplicity -/
 theorem scan_perm_referenced (e : FExpr) : (E (scan codeTable e)).Perm (referenced e) := by
-  induction e with
-  | leaf => simp [scan, E_visitPrimary_own, referenced]
-  | memFun o =>
+  match e with
+  | .leaf => simp [scan, E_visitPrimary_own, referenced]
+  | .memFun o =>
     simp [scan, row, codeTable, Rep.seq, referenced, E_append, E_visitLimRef, E_done]
-  | makeSlot o =>
+  | .makeSlot o =>
     simp [scan, row, codeTable, Rep.seq, referenced, E_append, E_visitLimRef, E_done]
-  | signalConnect o =>
+  | .signalConnect o =>
     simp [scan, row, codeTable, Rep.seq, referenced, E_append, E_visitLimRef, E_done]
-  | bind pos f bs ih =>
+  | .bind pos f bs =>
+    have ih := scan_perm_referenced f
+    have ihb := tuple_perm_refs bs
     cases pos <;>
-    · simp [scan, row, codeTable, Rep.seq, referenced, E_append, E_stored, E_visitTuple, E_done]
-      exact ih.append (List.Perm.refl _)
-  | bindReturn f b ih =>
-    simp [scan, row, codeTable, Rep.seq, referenced, E_append, E_stored, E_visitBound, E_done]
-    exact List.perm_append_comm.trans (ih.append (List.Perm.refl _))
-  | hide pos f ih =>
-    simpa [scan, row, codeTable, Rep.seq, referenced, E_append, E_stored, E_done] using ih
-  | hideReturn f ih =>
-    simpa [scan, row, codeTable, Rep.seq, referenced, E_append, E_stored, E_done] using ih
-  | retype f ih =>
-    simpa [scan, row, codeTable, Rep.seq, referenced, E_append, E_stored, E_done] using ih
-  | retypeReturn f ih =>
-    simpa [scan, row, codeTable, Rep.seq, referenced, E_append, E_stored, E_done] using ih
-  | compose1 s g ihs ihg =>
+    · simp [scan, row, codeTable, Rep.seq, referenced, E_append, E_stored, E_done]
+      exact ih.append ihb
+  | .bindReturn f b =>
+    have ih := scan_perm_referenced f
+    have ihb := bound_perm_refs b
     simp [scan, row, codeTable, Rep.seq, referenced, E_append, E_stored, E_done]
-    exact ihs.append ihg
-  | compose2 s g1 g2 ihs ih1 ih2 =>
+    exact List.perm_append_comm.trans (ih.append ihb)
+  | .hide pos f =>
+    have ih := scan_perm_referenced f
+    simpa [scan, row, codeTable, Rep.seq, referenced, E_append, E_stored, E_done] using ih
+  | .hideReturn f =>
+    have ih := scan_perm_referenced f
+    simpa [scan, row, codeTable, Rep.seq, referenced, E_append, E_stored, E_done] using ih
+  | .retype f =>
+    have ih := scan_perm_referenced f
+    simpa [scan, row, codeTable, Rep.seq, referenced, E_append, E_stored, E_done] using ih
+  | .retypeReturn f =>
+    have ih := scan_perm_referenced f
+    simpa [scan, row, codeTable, Rep.seq, referenced, E_append, E_stored, E_done] using ih
+  | .compose1 s g =>
     simp [scan, row, codeTable, Rep.seq, referenced, E_append, E_stored, E_done]
-    exact ihs.append (ih1.append ih2)
-  | exceptionCatch f c ihf ihc =>
+    exact (scan_perm_referenced s).append (scan_perm_referenced g)
+  | .compose2 s g1 g2 =>
     simp [scan, row, codeTable, Rep.seq, referenced, E_append, E_stored, E_done]
-    exact ihf.append ihc
-  | trackObj f ts ih =>
+    exact (scan_perm_referenced s).append ((scan_perm_referenced g1).append (scan_perm_referenced g2))
+  | .exceptionCatch f c =>
+    simp [scan, row, codeTable, Rep.seq, referenced, E_append, E_stored, E_done]
+    exact (scan_perm_referenced f).append (scan_perm_referenced c)
+  | .trackObj f ts =>
+    have ih := scan_perm_referenced f
     simp [scan, row, codeTable, Rep.seq, referenced, E_append, E_stored, E_visitObjs, E_done]
     exact ih.append (List.Perm.refl _)
-  | slot f ih =>
+  | .slot f =>
+    have ih := scan_perm_referenced f
     simpa [scan, row, codeTable, Rep.seq, referenced, E_append, E_stored, E_done, E_kid] using ih
+
+/-- `visitor<bound_argument<T>>` reaches exactly what the bound argument refers to — for a functor bound by
+    value: what that functor expression refers to (recursion into the bound value) -/
+theorem bound_perm_refs (b : BArg) : (E (visitBound codeTable b)).Perm b.refs := by
+  match b with
+  | .val => simp [visitBound, E_bound_row, E_visitPrimary_own, BArg.refs]
+  | .ref o => simp [visitBound, E_bound_row, E_visitLimRef, BArg.refs]
+  | .cref o => simp [visitBound, E_bound_row, E_visitLimRef, BArg.refs]
+  | .copy o => simp [visitBound, E_bound_row, E_visitPrimary_own, BArg.refs]
+  | .fn e =>
+    have ih := scan_perm_referenced e
+    simpa [visitBound, E_bound_row, BArg.refs] using ih
+
+/-- `tuple_for_each<TupleVisitorVisitEach>` over all bound arguments -/
+theorem tuple_perm_refs (bs : List BArg) : (E (visitTuple codeTable bs)).Perm (refsOf bs) := by
+  match bs with
+  | [] => simp [visitTuple, refsOf, E_done]
+  | b :: bs =>
+    simp only [visitTuple, refsOf, E_append]
+    exact (bound_perm_refs b).append (tuple_perm_refs bs)
+end
 
 /-- **C09.visited_eq_referenced** (general form, slots stored inside the expression included): the
     registrations made by the slot's rep together with those of the inner reps it owns are, as a
@@ -75,6 +110,22 @@ example : slotFree (.compose2 .leaf (.bind (some 1) (.memFun ⟨1, .vbase⟩) [.
     (.bindReturn (.trackObj .leaf [⟨3, .direct⟩, ⟨3, .direct⟩]) (.copy ⟨2, .direct⟩))) = [1, 2, 1, 3, 3] := by
   decide
 
+/-- functors bound by value: `bind<0>(f, 5, mem_fun(t1), hide(mem_fun(t2)))`, `bind_return(f, mem_fun(t3))` —
+    the outer rep registers itself in the objects of the bound functors -/
+example : slotFree (.bind (some 0) .leaf [.val, .fn (.memFun ⟨1, .direct⟩), .fn (.hide none (.memFun ⟨2, .vbase⟩))]) = true
+    ∧ visited (.bind (some 0) .leaf [.val, .fn (.memFun ⟨1, .direct⟩), .fn (.hide none (.memFun ⟨2, .vbase⟩))]) = [1, 2]
+    ∧ visited (.bindReturn (.memFun ⟨1, .direct⟩) (.fn (.memFun ⟨3, .direct⟩))) = [3, 1]
+    ∧ visited (.bind none .leaf [.fn (.bind none .leaf [.fn (.memFun ⟨4, .vbase⟩), .ref ⟨5, .direct⟩])]) = [4, 5] := by
+  decide
+
+/-- a slot bound by value (`bind(&run_then, continuation_slot)`): the outer rep registers nothing, it becomes the
+    parent of the bound slot's rep, which holds the registration -/
+example : visited (.bind none .leaf [.fn (.slot (.memFun ⟨1, .direct⟩))]) = []
+    ∧ visitedAll (.bind none .leaf [.fn (.slot (.memFun ⟨1, .direct⟩))]) = [1]
+    ∧ (repOf codeTable (.bind none .leaf [.fn (.slot (.memFun ⟨1, .direct⟩))])).innerCount = 1
+    ∧ ties (.bind none .leaf [.fn (.slot (.memFun ⟨1, .direct⟩))]) 1 = true
+    ∧ visitedAll (.bindReturn .leaf (.fn (.slot (.bind none .leaf [.ref ⟨2, .vbase⟩])))) = [2] := by decide
+
 /-- for an inner slot the outer rep registers nothing; the inner rep does, and its parent is the outer -/
 example : visited (.hide none (.slot (.memFun ⟨1, .direct⟩))) = []
     ∧ visitedAll (.hide none (.slot (.memFun ⟨1, .direct⟩))) = [1]
@@ -98,7 +149,9 @@ theorem ties_only (e : FExpr) (t : Nat) (h : ties e t = true) : t ∈ referenced
 
 example : 2 ∈ referenced (.bind (some 0) (.slot (.bindReturn .leaf (.ref ⟨2, .vbase⟩))) [.ref ⟨1, .direct⟩, .val])
     ∧ ties (.bind (some 0) (.slot (.bindReturn .leaf (.ref ⟨2, .vbase⟩))) [.ref ⟨1, .direct⟩, .val]) 2 = true
-    ∧ ties (.bind none .leaf [.copy ⟨1, .direct⟩]) 1 = false := by decide
+    ∧ ties (.bind none .leaf [.copy ⟨1, .direct⟩]) 1 = false
+    ∧ 3 ∈ referenced (.hideReturn (.bindReturn .leaf (.fn (.compose1 .leaf (.memFun ⟨3, .vbase⟩)))))
+    ∧ ties (.hideReturn (.bindReturn .leaf (.fn (.compose1 .leaf (.memFun ⟨3, .vbase⟩))))) 3 = true := by decide
 
 /-- **C09.no_trace**: a slot rep `r` that is constructed (`bindOps`: one `add` per visited target) and later
     destroyed before its trackables (`unbindOps`: `destroy()` walks the same visitors with
@@ -171,5 +224,105 @@ theorem f1_witness_ties :
     (repOf unrepairedTable (.bind (some 0) .leaf [.ref ⟨1, .direct⟩, .ref ⟨2, .direct⟩])).invalidatedBy 2
       = false := by
   decide
+
+/-! ### "a value bound by copy is a leaf"
+
+  `boundLeafTable` is `codeTable` with the `bound_argument` row changed from "`visit_each` of what `visit()`
+  returns" to "`visit_each` only for a `reference_wrapper`; a stored value is handed to the action directly". -/
+
+/-- **witness**: with that row the first theorem is false — the object of a `mem_fun` functor bound by value
+    (`bind(f, mem_fun(t1, …))`) is not registered -/
+theorem bound_leaf_witness :
+    ¬ (visitedWith boundLeafTable (.bind none .leaf [.fn (.memFun ⟨1, .direct⟩)])).Perm
+        (referenced (.bind none .leaf [.fn (.memFun ⟨1, .direct⟩)])) := by
+  decide
+
+/-- … destroying `t1` would not invalidate that slot -/
+theorem bound_leaf_witness_ties :
+    (repOf boundLeafTable (.bind none .leaf [.fn (.memFun ⟨1, .direct⟩)])).invalidatedBy 1 = false := by
+  decide
+
+/-- … and a slot bound by value (`bind<0>(f, 5, continuation_slot)`, `bind_return(f, some_slot)`) gets no
+    parent: no rep of the tree is tied to `t1` -/
+theorem bound_leaf_witness_slot :
+    ¬ (visitedAllWith boundLeafTable (.bind (some 0) .leaf [.val, .fn (.slot (.memFun ⟨1, .direct⟩))])).Perm
+        (referenced (.bind (some 0) .leaf [.val, .fn (.slot (.memFun ⟨1, .direct⟩))]))
+    ∧ (repOf boundLeafTable (.bindReturn .leaf (.fn (.slot (.memFun ⟨1, .direct⟩))))).innerCount = 0
+    ∧ (repOf boundLeafTable (.bindReturn .leaf (.fn (.slot (.memFun ⟨1, .direct⟩))))).invalidatedBy 1 = false := by
+  decide
+
+mutual
+/-- why the changed row goes unnoticed: on every expression without a functor-valued bound argument (plain
+    values, `std::ref`/`std::cref`, by-value objects at any position and depth) the two tables produce the same
+    rep tree -/
+theorem boundLeaf_same_without_bound_functor (e : FExpr) (h : plainBound e = true) :
+    scan boundLeafTable e = scan codeTable e := by
+  match e with
+  | .leaf => rfl
+  | .memFun o => rfl
+  | .makeSlot o => rfl
+  | .signalConnect o => rfl
+  | .bind pos f bs =>
+    simp [plainBound] at h
+    have ih := boundLeaf_same_without_bound_functor f h.1
+    have ihb := boundLeaf_tuple bs h.2
+    cases pos <;> simp [scan, row, boundLeafTable, codeTable, stored, ih, ihb]
+  | .bindReturn f b =>
+    simp [plainBound] at h
+    have ih := boundLeaf_same_without_bound_functor f h.1
+    have ihb := boundLeaf_bound b h.2
+    simp [scan, row, boundLeafTable, codeTable, stored, ih, ihb]
+  | .hide pos f =>
+    have ih := boundLeaf_same_without_bound_functor f (by simpa [plainBound] using h)
+    simp [scan, row, boundLeafTable, codeTable, stored, ih]
+  | .hideReturn f =>
+    have ih := boundLeaf_same_without_bound_functor f (by simpa [plainBound] using h)
+    simp [scan, row, boundLeafTable, codeTable, stored, ih]
+  | .retype f =>
+    have ih := boundLeaf_same_without_bound_functor f (by simpa [plainBound] using h)
+    simp [scan, row, boundLeafTable, codeTable, stored, ih]
+  | .retypeReturn f =>
+    have ih := boundLeaf_same_without_bound_functor f (by simpa [plainBound] using h)
+    simp [scan, row, boundLeafTable, codeTable, stored, ih]
+  | .compose1 s g =>
+    simp [plainBound] at h
+    simp [scan, row, boundLeafTable, codeTable, stored, boundLeaf_same_without_bound_functor s h.1,
+      boundLeaf_same_without_bound_functor g h.2]
+  | .compose2 s g1 g2 =>
+    simp [plainBound] at h
+    simp [scan, row, boundLeafTable, codeTable, stored, boundLeaf_same_without_bound_functor s h.1.1,
+      boundLeaf_same_without_bound_functor g1 h.1.2, boundLeaf_same_without_bound_functor g2 h.2]
+  | .exceptionCatch f c =>
+    simp [plainBound] at h
+    simp [scan, row, boundLeafTable, codeTable, stored, boundLeaf_same_without_bound_functor f h.1,
+      boundLeaf_same_without_bound_functor c h.2]
+  | .trackObj f ts =>
+    have ih := boundLeaf_same_without_bound_functor f (by simpa [plainBound] using h)
+    simp [scan, row, boundLeafTable, codeTable, stored, ih, visitObjs_boundLeafTable]
+  | .slot f =>
+    have ih := boundLeaf_same_without_bound_functor f (by simpa [plainBound] using h)
+    simp [scan, row, boundLeafTable, codeTable, stored, ih]
+
+theorem boundLeaf_bound (b : BArg) (h : b.plain = true) :
+    visitBound boundLeafTable b = visitBound codeTable b := by
+  match b with
+  | .val => simp [visitBound, row, boundLeafTable, codeTable, visitPrimary, Rep.seq, Rep.append_done]
+  | .ref o => rfl
+  | .cref o => rfl
+  | .copy o => simp [visitBound, row, boundLeafTable, codeTable, visitPrimary, Rep.seq, Rep.append_done]
+  | .fn e => simp [BArg.plain] at h
+
+theorem boundLeaf_tuple (bs : List BArg) (h : plainArgs bs = true) :
+    visitTuple boundLeafTable bs = visitTuple codeTable bs := by
+  match bs with
+  | [] => simp [visitTuple]
+  | b :: bs =>
+    simp [plainArgs] at h
+    simp [visitTuple, boundLeaf_bound b h.1, boundLeaf_tuple bs h.2]
+end
+
+example : plainBound (.bind (some 1) (.memFun ⟨1, .vbase⟩) [.val, .copy ⟨2, .direct⟩, .cref ⟨1, .vbase⟩]) = true
+    ∧ (scan boundLeafTable (.bind (some 1) (.memFun ⟨1, .vbase⟩) [.val, .copy ⟨2, .direct⟩, .cref ⟨1, .vbase⟩])).regs
+        = [.ext 1, .own 2, .ext 1] := by decide
 
 end Sigc.C09
